@@ -782,6 +782,15 @@ def c05(tier):
             raise vlib.ToolError("SelectLoop.tla %s: expected %s" % (cfg, "no error" if expect_ok else "a tearing counterexample"))
         mc.append({"spec": "SelectLoopMC.tla", "cfg": cfg, "ok": r["ok"], "expected_ok": expect_ok,
                    "generated": r["generated"], "distinct": r["distinct"], "wall_s": r["wall_s"]})
+    extra = None
+    if tier == "thorough":
+        # the same model for every list of up to 4 frames of any length and every segment size, by an
+        # inductive invariant (initiation, consecution) - and the drop discipline as the negative control
+        extra = {"symbolic": [
+            vlib.apalache_run("SelectLoopInd.tla", ["--cinit=CInit", "--init=Init", "--next=Next", "--inv=IndInv", "--length=0"], "C05-i0"),
+            vlib.apalache_run("SelectLoopInd.tla", ["--cinit=CInit", "--init=IndInit", "--next=Next", "--inv=IndInv", "--length=1"], "C05-i1"),
+            vlib.apalache_run("SelectLoopInd.tla", ["--cinit=CInitDrop", "--init=Init", "--next=Next", "--inv=NoTear", "--length=4"],
+                              "C05-drop", expect_error=True)]}
     return e2e_check(
         "C05", tier, scen.c05(tier, vlib.seed()), "C05Trace.tla", _corrupt_c05,
         ["valid exchanges whose SETTINGS / GREASE / request or response HEADERS / session-stream GREASE / close capsule are cut "
@@ -791,7 +800,7 @@ def c05(tier):
          "timing: whether a tear manifests depends on the scheduler; a scenario that passes is not proof of absence "
          "(D6, the tear of frames read inside the worker's select loop, was found here and is fixed by b91be3c)"],
         mc_cfgs=[("WireMC.tla", "WireMC_quick.cfg")], mc_results=mc, par=4, threads=4, case_of=_case_c05,
-        runs=2 if tier == "thorough" else 1)
+        runs=2 if tier == "thorough" else 1, extra_cov=extra)
 
 
 PROPS["C05"] = c05
